@@ -115,7 +115,7 @@ Theorem eq_not_identity : forall val py_eq keyf attrs (x : inst val) a,
 Proof. exact eq_not_identity_l. Qed.
 Print Assumptions eq_not_identity.
 
-(** Which fields take part and with which key: all 64 shapes of (cmp, eq, order). *)
+(** Which fields take part and with which key: all 125 shapes of (cmp, eq, order): None, True, False, callable, falsy callable object. *)
 Theorem eq_participation : forall n cmp eq order,
   make_attribute n cmp eq order = participation_spec n cmp eq order.
 Proof. exact eq_participation_l. Qed.
@@ -129,14 +129,21 @@ Print Assumptions eq_false_fields.
 
 Theorem eq_key_fields : forall n cmp eq order a k,
   make_attribute n cmp eq order = Ok a ->
-  (f_eq_key a = Some k <-> (cmp = SK k \/ (cmp = SN /\ eq = SK k))).
+  (f_eq_key a = Some k <-> (is_key cmp k \/ (cmp = SN /\ is_key eq k))).
 Proof. exact field_eq_key_iff. Qed.
 Print Assumptions eq_key_fields.
+
+(** a callable OBJECT whose truth value is False (empty callable dict subclass, __bool__
+    False, __len__ 0) given as cmp= / eq= / order= is a key function like any other *)
+Theorem falsy_key_honoured : forall n cmp eq order,
+  make_attribute n cmp eq order = make_attribute n (unfalsy cmp) (unfalsy eq) (unfalsy order).
+Proof. exact falsy_key_is_key. Qed.
+Print Assumptions falsy_key_honoured.
 
 Theorem field_settings_rejected : forall n cmp eq order,
   make_attribute n cmp eq order = VErr <->
   (is_set cmp = true /\ (is_set eq = true \/ is_set order = true)) \/
-  (cmp = SN /\ eq = SF /\ (order = ST \/ exists k, order = SK k)).
+  (cmp = SN /\ eq = SF /\ (order = ST \/ exists k, order = SK k \/ order = SKf k)).
 Proof. exact field_error_iff. Qed.
 Print Assumptions field_settings_rejected.
 
